@@ -245,6 +245,53 @@ pub fn decode(t: &mut Tape) -> Case {
         };
         blocks.push(blk(blk_tid(bbase), defs, jmps));
     }
+    // Structured counting loop (init / head with a bound test / body with an increment): the shape
+    // that drives widening hints, widening and conditional refinement of the interval analysis.
+    if nblocks >= 4 && g.t.prob(150) {
+        use BinOpType::*;
+        let k = 1 + g.t.below(nblocks - 3); // blocks k (init), k+1 (head), k+2 (body)
+        let r = g.reg();
+        let up = g.t.prob(190);
+        let step = *g.t.choose(&[1i128, 1, 2, 4, 3, 8]);
+        let c0 = *g.t.choose(&[0i128, 1, -1, 5, -8, 100]);
+        let n = c0 + if up { 1 } else { -1 } * step * (1 + g.t.below(12) as i128) + if g.t.prob(60) { 1 } else { 0 };
+        let (bt_init, bt_head, bt_body) = (sbase + 0x40 * k as u64, sbase + 0x40 * (k as u64 + 1), sbase + 0x40 * (k as u64 + 2));
+        let exit_k = 1 + g.t.below(nblocks - 1);
+        let exit = blk_tid(sbase + 0x40 * exit_k as u64);
+        // init
+        blocks[k].term.defs.push(assign(instr_tid(bt_init + 0x38, 0), &r, econst(c0, 8)));
+        blocks[k].term.jmps = vec![jmp(instr_tid(bt_init + 0x3f, 0), Jmp::Branch(blk_tid(bt_head)))];
+        // head: bound test in one of several syntactic forms
+        let rv = evar(&r);
+        let nv = econst(n, 8);
+        let cond = match (up, g.t.below(6)) {
+            (true, 0) => ebin(IntSLess, rv, nv),
+            (true, 1) => ebin(IntLess, rv, nv),
+            (true, 2) => ebin(IntNotEqual, rv, nv),
+            (true, 3) => ebin(IntSLessEqual, rv, nv),
+            (true, 4) => eun(UnOpType::BoolNegate, ebin(IntSLessEqual, nv, rv)),
+            (true, _) => ebin(IntSLess, ecast(CastOpType::IntSExt, 8, esub(0, 4, rv)), nv),
+            (false, 0) => ebin(IntSLess, nv, rv),
+            (false, 1) => ebin(IntNotEqual, rv, nv),
+            (false, 2) => ebin(IntSLessEqual, nv, rv),
+            (false, 3) => eun(UnOpType::BoolNegate, ebin(IntSLess, rv, nv)),
+            (false, _) => ebin(IntLess, nv, rv),
+        };
+        if g.t.prob(60) {
+            // flag form: ZF computed in the head, branch on the flag
+            blocks[k + 1].term.defs.push(assign(instr_tid(bt_head + 0x38, 0), &var("ZF", 1), cond));
+            blocks[k + 1].term.jmps = vec![jmp(instr_tid(bt_head + 0x3f, 0), Jmp::CBranch { target: blk_tid(bt_body), condition: evar(&var("ZF", 1)) }), jmp(instr_tid(bt_head + 0x3f, 1), Jmp::Branch(exit))];
+        } else {
+            blocks[k + 1].term.jmps = vec![jmp(instr_tid(bt_head + 0x3f, 0), Jmp::CBranch { target: blk_tid(bt_body), condition: cond }), jmp(instr_tid(bt_head + 0x3f, 1), Jmp::Branch(exit))];
+        }
+        // the head must not redefine the counter
+        blocks[k + 1].term.defs.retain(|d| !matches!(&d.term, Def::Assign { var, .. } | Def::Load { var, .. } if *var == r));
+        // body: keep its defs (they may or may not touch the counter), then increment and loop
+        let inc = if up { ebin(IntAdd, evar(&r), econst(step, 8)) } else { ebin(IntSub, evar(&r), econst(step, 8)) };
+        blocks[k + 2].term.defs.push(assign(instr_tid(bt_body + 0x38, 0), &r, inc));
+        blocks[k + 2].term.jmps = vec![jmp(instr_tid(bt_body + 0x3f, 0), Jmp::Branch(blk_tid(bt_head)))];
+        g.feat("structured-counting-loop");
+    }
     let s = sub(sub_tid(sbase), "f", blocks);
     let project = project(vec![s], vec![], vec![sub_tid(sbase)]);
     // initial states
@@ -535,4 +582,5 @@ pub fn run(eng: &mut Engine) {
     );
     eng.require_fraction("pi-soundness", "nontrivial", 0.25);
     eng.require_fraction("pi-soundness", "analysis-pruned-some-block", 0.02);
+    eng.require_fraction("pi-soundness", "feature:structured-counting-loop", 0.1);
 }
